@@ -733,3 +733,154 @@ theorem applyOps_cons {ops : List Op} (hok : OpsOK ops) (hno : NoOverlap ops) (h
     | some y => exact (hc q).2.2 a (hmem_dig a ha (by simp [hadg])) b (hmem_dig b hb (by simp [hbdg])) hab
 
 end PlzVerif.DirBuilder
+
+namespace PlzVerif.DirBuilder
+
+/-! ### `walk` never fails on a builder produced by well-formed operations -/
+
+theorem fillWith_isSome (wc : Name → Option Walked) (H : Dir → Dg) (l : List DirNode)
+    (h : ∀ n ∈ l, n.dg = none → (wc n.name).isSome = true) : (fillWith wc H l).isSome = true := by
+  induction l with
+  | nil => simp [fillWith]
+  | cons n rest ih =>
+    have hr := ih (fun m hm => h m (List.mem_cons_of_mem _ hm))
+    obtain ⟨r, hr'⟩ := Option.isSome_iff_exists.mp hr
+    unfold fillWith
+    cases hdg : n.dg with
+    | some x => simp [hr']
+    | none =>
+      obtain ⟨w, hw⟩ := Option.isSome_iff_exists.mp (h n (by simp) hdg)
+      simp [hw, hr']
+
+theorem foldl_max_le (b : Builder) (a : Nat) : a ≤ b.foldl (fun a e => max a e.1.length) a := by
+  induction b generalizing a with
+  | nil => exact Nat.le_refl _
+  | cons e es ih => exact Nat.le_trans (Nat.le_max_left _ _) (ih _)
+
+theorem length_le_depth (b : Builder) (q : Path) (h : (b.get q).isSome = true) : q.length ≤ b.depth := by
+  unfold Builder.depth
+  rw [← has_eq_get] at h
+  unfold Builder.has at h
+  suffices hs : ∀ a, q.length ≤ b.foldl (fun a e => max a e.1.length) a from hs 0
+  induction b with
+  | nil => simp at h
+  | cons e es ih =>
+    intro a
+    simp only [List.any_cons, Bool.or_eq_true] at h
+    rw [List.foldl_cons]
+    rcases h with h | h
+    · have : e.1 = q := by simpa using h
+      rw [← this]
+      exact Nat.le_trans (Nat.le_max_right _ _) (foldl_max_le es _)
+    · exact ih h _
+
+/-- With enough fuel for the deepest directory, walking any existing directory succeeds: every child without
+    a digest is a directory of the builder (`Rel`), so no lookup fails. -/
+theorem walkWith_isSome (shared : Bool) (sf : List FileNode → List FileNode) (sd : List DirNode → List DirNode)
+    (ss : List SymNode → List SymNode) (H : Dir → Dg) (b : Builder) (ops : List Op) (r : Rel b.get ops) :
+    ∀ fuel p, (b.get p).isSome = true → b.depth + 1 ≤ fuel + p.length →
+      (walkWith shared sf sd ss H b fuel p).isSome = true := by
+  intro fuel
+  induction fuel with
+  | zero =>
+    intro p hp hf
+    have := length_le_depth b p hp
+    omega
+  | succ fuel ih =>
+    intro p hp hf
+    obtain ⟨d, hd⟩ := Option.isSome_iff_exists.mp hp
+    unfold walkWith
+    simp only [hd]
+    have hfill : (fillWith (fun c => walkWith shared sf sd ss H b fuel (p ++ [c])) H d.dirs).isSome = true := by
+      apply fillWith_isSome
+      intro n hn hdg
+      have hmem : n.name ∈ nils d := by
+        unfold nils; simp only [List.mem_map, List.mem_filter]
+        exact ⟨n, ⟨hn, by simp [hdg]⟩, rfl⟩
+      have hchild := (r.inv.nil_iff p d hd n.name).mp hmem
+      apply ih _ hchild
+      simp; omega
+    obtain ⟨x, hx⟩ := Option.isSome_iff_exists.mp hfill
+    simp [hx]
+
+end PlzVerif.DirBuilder
+
+namespace PlzVerif.DirBuilder
+
+/-! ### more fuel does not change a successful walk -/
+
+theorem fillWith_congr (wc₁ wc₂ : Name → Option Walked) (H : Dir → Dg) (l : List DirNode)
+    (h : ∀ n ∈ l, n.dg = none → wc₁ n.name = wc₂ n.name) : fillWith wc₁ H l = fillWith wc₂ H l := by
+  induction l with
+  | nil => rfl
+  | cons n rest ih =>
+    have hr := ih (fun m hm => h m (List.mem_cons_of_mem _ hm))
+    unfold fillWith
+    cases hdg : n.dg with
+    | some x => simp [hr]
+    | none => simp only []; rw [h n (by simp) hdg, hr]
+
+theorem fillWith_children_some (wc : Name → Option Walked) (H : Dir → Dg) (l : List DirNode)
+    (h : (fillWith wc H l).isSome = true) : ∀ n ∈ l, n.dg = none → (wc n.name).isSome = true := by
+  induction l with
+  | nil => intro n hn; simp at hn
+  | cons m rest ih =>
+    unfold fillWith at h
+    intro n hn hdg
+    cases hm : m.dg with
+    | some x =>
+      simp only [hm] at h
+      have hr : (fillWith wc H rest).isSome = true := by
+        cases hf : fillWith wc H rest <;> simp [hf] at h ⊢
+      simp only [List.mem_cons] at hn
+      rcases hn with rfl | hn
+      · rw [hm] at hdg; cases hdg
+      · exact ih hr n hn hdg
+    | none =>
+      simp only [hm] at h
+      cases hw : wc m.name with
+      | none => simp [hw] at h
+      | some w =>
+        cases hf : fillWith wc H rest with
+        | none => simp [hw, hf] at h
+        | some r =>
+          simp only [List.mem_cons] at hn
+          rcases hn with rfl | hn
+          · simp [hw]
+          · exact ih (by simp [hf]) n hn hdg
+
+theorem walkWith_mono (shared : Bool) (sf : List FileNode → List FileNode) (sd : List DirNode → List DirNode)
+    (ss : List SymNode → List SymNode) (H : Dir → Dg) (b : Builder) :
+    ∀ fuel p w, walkWith shared sf sd ss H b fuel p = some w → walkWith shared sf sd ss H b (fuel + 1) p = some w := by
+  intro fuel
+  induction fuel with
+  | zero => intro p w h; simp [walkWith] at h
+  | succ fuel ih =>
+    intro p w h
+    unfold walkWith at h ⊢
+    cases hd : b.get p with
+    | none => simp [hd] at h
+    | some d =>
+      simp only [hd] at h ⊢
+      have hsome : (fillWith (fun c => walkWith shared sf sd ss H b fuel (p ++ [c])) H d.dirs).isSome = true := by
+        cases hf : fillWith (fun c => walkWith shared sf sd ss H b fuel (p ++ [c])) H d.dirs with
+        | none => simp [hf] at h
+        | some r => rfl
+      have hc := fillWith_children_some _ H d.dirs hsome
+      have heq : fillWith (fun c => walkWith shared sf sd ss H b (fuel + 1) (p ++ [c])) H d.dirs
+          = fillWith (fun c => walkWith shared sf sd ss H b fuel (p ++ [c])) H d.dirs := by
+        apply fillWith_congr
+        intro n hn hdg
+        obtain ⟨w', hw'⟩ := Option.isSome_iff_exists.mp (hc n hn hdg)
+        simp only [hw']
+        exact ih _ _ hw'
+      rw [heq]; exact h
+
+theorem walkWith_mono_le (shared : Bool) (sf : List FileNode → List FileNode) (sd : List DirNode → List DirNode)
+    (ss : List SymNode → List SymNode) (H : Dir → Dg) (b : Builder) (fuel k : Nat) (p : Path) (w : Walked)
+    (h : walkWith shared sf sd ss H b fuel p = some w) : walkWith shared sf sd ss H b (fuel + k) p = some w := by
+  induction k with
+  | zero => exact h
+  | succ k ih => exact walkWith_mono shared sf sd ss H b (fuel + k) p w ih
+
+end PlzVerif.DirBuilder
